@@ -389,7 +389,9 @@ func (p *SolverPool) Solve(asserts []*Term, timeoutMs int, portfolio []SolverKin
 	arrays := hasArrays(asserts)
 	lam := hasLambda(asserts)
 	hard := hasHardArith(asserts)
+	termMu.Lock()
 	script, inputs, sels := ScriptSel(asserts, extraDecls())
+	termMu.Unlock()
 	run1 := func(k SolverKind, sc string, withModel bool, label string) QueryResult {
 		s, err := p.get(k)
 		if err != nil {
@@ -435,10 +437,11 @@ func (p *SolverPool) Solve(asserts []*Term, timeoutMs int, portfolio []SolverKin
 		cands = append(cands, cand{kindCVC5, script, true, "", false})
 	}
 	if arrays && hard {
-		if ab := abstractArith(asserts); ab != nil {
-			sc, _, _ := ScriptSel(ab, extraDecls())
-			cands = append(cands, cand{kindZ3, sc, false, k3abs, true})
-		}
+		termMu.Lock()
+		ab := abstractArith(asserts)
+		sc, _, _ := ScriptSel(ab, extraDecls())
+		termMu.Unlock()
+		cands = append(cands, cand{kindZ3, sc, false, k3abs, true})
 	}
 	ch := make(chan QueryResult, len(cands))
 	for _, c := range cands {
@@ -568,6 +571,9 @@ func parseValueList(s string) []string {
 	}
 	return out
 }
+
+// termMu serialises term construction done from solver workers.
+var termMu sync.Mutex
 
 const k3abs = "z3-4.8.12+uf-abstracted-mul/div"
 
